@@ -469,10 +469,32 @@ def latest (names : List Str) : Except Err (Option Nat) :=
 
 /-! ## through the stacks -/
 
-/-- `Eups._findLatestProduct(name, eupsPathDirs, flavor)` through the cache: in every stack the last of
-the sorted versions; a later stack replaces the candidate only when its latest is strictly later.
-Stacks are the lists of declared versions, in path order.  Returns (stack index, version). -/
-def latestAcrossGo (i : Nat) (out : Option (Nat × Str × Lexed)) :
+/-- `Database.findProducts` returns the products of one stack sorted by their version *strings*
+(`_cmp_by_verflav`, one flavor): insertion sort by Python's string order. -/
+def insertStr (x : Str) : List Str → List Str
+  | [] => [x]
+  | y :: ys => if Str.cmp x y < 0 then x :: y :: ys else y :: insertStr x ys
+
+def dbOrder : List Str → List Str
+  | [] => []
+  | x :: xs => insertStr x (dbOrder xs)
+
+/-- `if minver and self.version_cmp(latest.version, minver) < 0: continue` -/
+def belowMin (minver : Option Str) (l : Lexed) : Except Err Bool :=
+  match minver with
+  | none => .ok false
+  | some mv =>
+    match lex mv with
+    | .error e => .error e
+    | .ok lm => .ok (decide (cmpSort l lm < 0))
+
+/-- `Eups._findLatestProduct(name, eupsPathDirs, flavor, minver)`: in every stack the last of the
+versions sorted by the comparator (cache branch: `vers.sort(...)`, `vers[-1]`; database branch:
+`_selectPreferredProduct(findProducts(...), [Tag("latest")])`); a stack whose latest is below `minver`
+is passed over; a later stack replaces the candidate only when its latest is strictly later.
+Stacks are the lists of declared versions in the order the branch enumerates them (database branch:
+`dbOrder`), in path order.  Returns (stack index, version). -/
+def latestAcrossGo (minver : Option Str) (i : Nat) (out : Option (Nat × Str × Lexed)) :
     List (List Str) → Except Err (Option (Nat × Str × Lexed))
   | [] => .ok out
   | st :: rest =>
@@ -480,19 +502,26 @@ def latestAcrossGo (i : Nat) (out : Option (Nat × Str × Lexed)) :
     | .error e => .error e
     | .ok ps =>
       match lastMax none ps with
-      | none => latestAcrossGo (i + 1) out rest
+      | none => latestAcrossGo minver (i + 1) out rest
       | some (v, l) =>
-        match out with
-        | none => latestAcrossGo (i + 1) (some (i, v, l)) rest
-        | some (_, _, lw) =>
-          if cmpSort l lw > 0 then latestAcrossGo (i + 1) (some (i, v, l)) rest
-          else latestAcrossGo (i + 1) out rest
+        match belowMin minver l with
+        | .error e => .error e
+        | .ok true => latestAcrossGo minver (i + 1) out rest
+        | .ok false =>
+          match out with
+          | none => latestAcrossGo minver (i + 1) (some (i, v, l)) rest
+          | some (_, _, lw) =>
+            if cmpSort l lw > 0 then latestAcrossGo minver (i + 1) (some (i, v, l)) rest
+            else latestAcrossGo minver (i + 1) out rest
 
-def latestAcross (stacks : List (List Str)) : Except Err (Option (Nat × Str)) :=
-  match latestAcrossGo 0 none stacks with
+def latestAcrossMin (minver : Option Str) (stacks : List (List Str)) : Except Err (Option (Nat × Str)) :=
+  match latestAcrossGo minver 0 none stacks with
   | .error e => .error e
   | .ok none => .ok none
   | .ok (some (i, v, _)) => .ok (some (i, v))
+
+/-- `findTaggedProduct(name, "latest")`: no minimum version -/
+def latestAcross (stacks : List (List Str)) : Except Err (Option (Nat × Str)) := latestAcrossMin none stacks
 
 /-- the versions of one stack that match, not seen in an earlier stack -/
 def matchesIn (expr : Str) (i : Nat) : List Str → List (Nat × Str) → Except Err (List (Nat × Str))
@@ -516,5 +545,16 @@ def matchesAcrossGo (expr : Str) (i : Nat) : List (List Str) → List (Nat × St
 
 def matchesAcross (expr : Str) (stacks : List (List Str)) : Except Err (List (Nat × Str)) :=
   matchesAcrossGo expr 0 stacks []
+
+/-- `Eups._findPreferredProductByExpr` with no other tag assigned (= `findProduct(name, expr)`):
+`_selectPreferredProduct` on the matching products in the order they were collected, tag `latest`. -/
+def preferredByExpr (expr : Str) (stacks : List (List Str)) : Except Err (Option (Nat × Str)) :=
+  match matchesAcross expr stacks with
+  | .error e => .error e
+  | .ok ms =>
+    match latest (ms.map (·.2)) with
+    | .error e => .error e
+    | .ok none => .ok none
+    | .ok (some i) => .ok ms[i]?
 
 end EupsModel.VersionCmp
